@@ -518,6 +518,10 @@ func runC12(r *ev.Run) {
 		if sf.Heavy && !isThorough(r) && sf.Name != "ssh" && sf.Name != "quic(mem)" && sf.Name != "p2pke(udp)" {
 			continue
 		}
+		idx++
+		if hg := g.Fork(); r.Mine(idx) && r.Want("held-callback-"+sf.Name) {
+			c12HeldCallback(r, sf, hg, "held-callback-"+sf.Name)
+		}
 		for _, G := range []int{0, 1, 4, 16} {
 			for _, reply := range []bool{false, true} {
 				reps := pick(r, 1, 5)
